@@ -549,7 +549,9 @@ impl Melda {
                 // An object can be None if its an "empty" delta array descriptor
                 if let Some(object) = object {
                     let digest = digest_object(&object).unwrap(); // Digest of the current object
-                    if digest.ne(winning_revision.digest()) {
+                    // An edit script may be byte-identical to the previous one (same operation
+                    // against a different base), so the digest shortcut only applies to plain objects
+                    if digest.ne(winning_revision.digest()) || is_array_descriptor(uuid) {
                         // Digest is different, there was an update
                         let rev = Revision::new_updated(digest, winning_revision);
                         let winning_revision = winning_revision.clone();
